@@ -37,6 +37,9 @@ func init() {
 			{Name: "a package-level memo table", File: "eval.go", Old: "func getTypeString(value reflect.Value) string {\n\tif value.IsValid() {\n\t\treturn value.Type().String()\n\t}", New: "var typeNames = map[reflect.Type]string{}\n\nfunc getTypeString(value reflect.Value) string {\n\tif value.IsValid() {\n\t\tif s, ok := typeNames[value.Type()]; ok {\n\t\t\treturn s\n\t\t}\n\t\ttypeNames[value.Type()] = value.Type().String()\n\t\treturn value.Type().String()\n\t}", Rule: "C11.globals"},
 			{Name: "last runtime remembered in the Set", File: "exec.go", Old: "\tst.set = t.set\n", New: "\tst.set = t.set\n\tt.set.globals[\"__runtime\"] = reflect.ValueOf(st)\n", Rule: "C11."},
 			{Name: "template mutated while executing (extends chain flattened lazily)", File: "exec.go", Old: "\tfor t.extends != nil {\n\t\tt = t.extends\n\t}\n", New: "\tfor t.extends != nil {\n\t\tif t.extends.extends != nil {\n\t\t\tt.extends = t.extends.extends\n\t\t\tcontinue\n\t\t}\n\t\tt = t.extends\n\t}\n", Rule: "C11.frozen"},
+			{Name: "importer adopts the block table of its first import (agent seed C11/1)", File: "parse.go", Old: "\tfor _, _import := range t.imports {\n\t\tt.addBlocks(_import.processedBlocks)\n\t}\n\n\tt.addBlocks(t.passedBlocks)", New: "\tfor i, _import := range t.imports {\n\t\tif i == 0 && t.processedBlocks == nil {\n\t\t\tt.processedBlocks = _import.processedBlocks\n\t\t\tcontinue\n\t\t}\n\t\tt.addBlocks(_import.processedBlocks)\n\t}\n\n\tt.addBlocks(t.passedBlocks)", Rule: "C11.frozen"},
+			{Name: "InMemLoader.Set reuses the old buffer (agent seed C11/2)", File: "loader.go", Old: "\tl.files[templatePath] = []byte(contents)", New: "\tl.files[templatePath] = append(l.files[templatePath][:0], contents...)", Rule: "C11.frozen"},
+			{Name: "equivalent: InMemLoader.Set copies with append onto nil", File: "loader.go", Old: "\tl.files[templatePath] = []byte(contents)", New: "\tl.files[templatePath] = append([]byte(nil), contents...)", Rule: "-"},
 			{Name: "Set option written after construction (lazy default)", File: "set.go", Old: "func (s *Set) getTemplateFromCache(templatePath string) (t *Template, ok bool) {\n", New: "func (s *Set) getTemplateFromCache(templatePath string) (t *Template, ok bool) {\n\tif s.extensions == nil {\n\t\ts.extensions = []string{\"\"}\n\t}\n", Rule: "C11.frozen"},
 		},
 	})
@@ -418,6 +421,17 @@ func c11frozen(c *an.Ctx) {
 	c.Expect("C11.frozen", "stores to Set fields", nSet, 8)
 	c.Expect("C11.frozen", "stores to Template fields", nTmpl, 5)
 	c.OK("C11.frozen", "writers", p.Jet.Syntax[0].Pos(), "Set fields are written only by NewSet/options (globals under its mutex), Template fields only while parsing (%d + %d stores)", nSet, nTmpl)
+	// no published object adopts another object's map: every map stored in a field of Set, Template, the
+	// default cache or the in-memory loader is freshly allocated (or nil)
+	isMap := func(t types.Type) bool { _, ok := t.Underlying().(*types.Map); return ok }
+	nm := checkFresh(c, "C11.frozen", fieldStores(c, map[string]bool{"Template": true, "Set": true, "InMemLoader": true, "cache": true}, isMap),
+		"a map adopted from another (already published) object is written while that object is read by concurrent executions", false)
+	c.Expect("C11.frozen", "map-typed field stores of Set/Template/InMemLoader", nm, 3)
+	// contents handed to readers by the in-memory loader are never modified in place
+	ns := checkFresh(c, "C11.frozen", fieldIndexStores(c, "InMemLoader.files"), "Open hands out a reader over the stored bytes and GetTemplate reads it after the loader's lock is released; reusing the old buffer lets a concurrent Set change the bytes under that reader", false)
+	c.Expect("C11.frozen", "stores into InMemLoader.files", ns, 1)
+	nr := inPlaceWrites(c, "C11.frozen", "InMemLoader.files", "readers obtained from Open still read that storage without the lock")
+	c.Expect("C11.frozen", "accesses to InMemLoader.files entries", nr, 3)
 	// the default cache is a sync.Map
 	if ct := p.LookupType(p.Jet, "cache"); ct != nil {
 		fv := an.Field(ct, "m")
